@@ -128,7 +128,13 @@ func cmdVC(args []string) {
 		}, 6)
 		for _, r := range res {
 			status := "OK  "
-			if r.Obl.Kind == "smoke" {
+			if r.Obl.Kind == "canary" || r.Obl.Kind == "finding" {
+				status = "meta"
+				if r.Answer.Result == "unsat" && r.Obl.Kind == "canary" {
+					status = "VACUOUS"
+					bad++
+				}
+			} else if r.Obl.Kind == "smoke" {
 				if r.Answer.Result == "sat" {
 					status = "OK  "
 				} else {
